@@ -22,20 +22,23 @@ Proof.
   destruct Hin as [<-|Hin]; [eexists; exact Ha|apply IH; assumption].
 Qed.
 
+Definition tok_readable (t : tok) : Prop :=
+  match fst t with NUMBER => num_readable (snd t) | TO => False | _ => True end.
 Lemma numbers_readable :
-  (forall x, (forall t, In (NUMBER, t) (toks_operand x) -> num_readable t) -> readable_operand x) /\
-  (forall e, (forall t, In (NUMBER, t) (toks_expr e) -> num_readable t) -> readable_expr e) /\
-  (forall r, (forall t, In (NUMBER, t) (toks_tail r) -> num_readable t) -> readable_tail r).
+  (forall x, (forall t, In t (toks_operand x) -> tok_readable t) -> readable_operand x) /\
+  (forall e, (forall t, In t (toks_expr e) -> tok_readable t) -> readable_expr e) /\
+  (forall r, (forall t, In t (toks_tail r) -> tok_readable t) -> readable_tail r).
 Proof.
   apply syntax_mut.
-  - intros t H. apply H. left. reflexivity.
-  - intros t w pt H. apply H. left. reflexivity.
+  - intros t H. apply (H (NUMBER, t)). left. reflexivity.
+  - intros t w pt H. apply (H (NUMBER, t)). left. reflexivity.
   - intros po pc w1 e IHe w2 H. cbn [readable_operand]. apply IHe. intros t Ht. apply H. cbn [toks_operand]. right.
     apply in_or_app. right. apply in_or_app. left. exact Ht.
   - intros x IHx r IHr H. cbn [readable_expr]. split; [apply IHx|apply IHr]; intros t Ht; apply H; cbn [toks_expr]; apply in_or_app; tauto.
   - intros _. exact I.
   - intros wb a txt wa x IHx r IHr H. cbn [readable_tail]. split; [apply IHx|apply IHr]; intros t Ht; apply H; cbn [toks_tail];
       apply in_or_app; right; right; apply in_or_app; right; apply in_or_app; tauto.
+  - intros wb txt wa u r IHr H. cbn [readable_tail]. apply (H (TO, txt)). cbn [toks_tail]. apply in_or_app. right. left. reflexivity.
 Qed.
 
 Theorem query_expression : forall debug describe facts (w0 : blanks) (e : ParseChains.expr) (w1 : blanks),
@@ -46,8 +49,9 @@ Proof.
   intros debug describe facts w0 e w1 Hl.
   assert (Hr : readable_expr e).
   { apply (proj1 (proj2 numbers_readable)). intros t Ht.
-    destruct (lexable_in _ (NUMBER, t) Hl) as [rest Hok]; [apply in_or_app; right; apply in_or_app; left; exact Ht|].
-    unfold tok_ok in Hok. cbn [fst snd] in Hok. destruct Hok as (l & W & -> & _). apply wf_readable. exact W. }
+    destruct (lexable_in _ t Hl) as [rest Hok]; [apply in_or_app; right; apply in_or_app; left; exact Ht|].
+    unfold tok_ok in Hok. unfold tok_readable. destruct t as [k tx]. cbn [fst snd] in *.
+    destruct k; try exact I; try contradiction. destruct Hok as (l & W & -> & _). apply wf_readable. exact W. }
   destruct (expression_value debug facts describe w0 e w1 Hr) as (f & r & Hp & He & Ha).
   exists r. split; [|exact Ha]. unfold query. rewrite (tokens_lexable _ Hl), Hp. exact He.
 Qed.
@@ -75,4 +79,61 @@ Proof.
   { vm_compute. eexists. split; reflexivity. }
   destruct Eo as (q & Eq & Hq40). rewrite Eq in Ha. destruct Ha as (v & -> & Hv).
   exists v. split; [exact Hq|]. now rewrite Hv.
+Qed.
+
+(* ---- blanks do not matter: two expression texts that differ only in their blanks (how many, which kind, none at all where the
+   lexer allows it, also at either end) denote the same expression, so their answers agree ---- *)
+Fixpoint skel_operand (x : operand) : operand :=
+  match x with
+  | Num t => Num t
+  | Pct t _ pt => Pct t [] pt
+  | Paren po pc _ e _ => Paren po pc [] (skel_expr e) []
+  end
+with skel_expr (e : ParseChains.expr) : ParseChains.expr := match e with Chain x r => Chain (skel_operand x) (skel_tail r) end
+with skel_tail (r : tail) : tail :=
+  match r with
+  | TNil => TNil
+  | TCons _ a txt _ x r' => TCons [] a txt [] (skel_operand x) (skel_tail r')
+  | TTo _ txt _ u r' => TTo [[32%N]] txt [[32%N]] u (skel_tail r')
+  end.
+
+Lemma texpr_ext opd opd' opb opb' : (forall n, opd n = opd' n) -> (forall i, opb i = opb' i) ->
+  forall T, texpr opd opb T = texpr opd' opb' T.
+Proof.
+  intros Hd Hb. induction T as [n|hd tl IHhd IHtl] using ClimbProofs.tree_ind2; [apply Hd|].
+  rewrite !texpr_node, IHhd. generalize (texpr opd' opb' hd) as acc.
+  induction IHtl as [|[o x] r Hx _ IHr]; intros acc; [reflexivity|]. cbn [tfold]. cbn [snd] in Hx. rewrite Hx, Hb. apply IHr.
+Qed.
+
+Lemma skel_sem :
+  (forall x, sem_operand (skel_operand x) = sem_operand x) /\
+  (forall e, sem_expr (skel_expr e) = sem_expr e) /\
+  (forall r, prios (skel_tail r) = prios r /\ (forall m, tsem (skel_tail r) m = tsem r m) /\ (forall m, tbin (skel_tail r) m = tbin r m)).
+Proof.
+  apply syntax_mut.
+  - reflexivity.
+  - reflexivity.
+  - intros po pc w1 e IHe w2. cbn [skel_operand sem_operand]. exact IHe.
+  - intros x IHx r (Hp & Hs & Hb). cbn [skel_expr sem_expr]. rewrite Hp. apply texpr_ext.
+    + intros [|n]; [exact IHx|apply Hs].
+    + intros [|i]; [reflexivity|apply Hb].
+  - repeat split.
+  - intros wb a txt wa x IHx r (Hp & Hs & Hb). cbn [skel_tail prios]. rewrite Hp. split; [reflexivity|].
+    split; intros [|m]; cbn [tsem tbin]; auto.
+  - intros wb txt wa u r (Hp & Hs & Hb). cbn [skel_tail prios]. rewrite Hp. split; [reflexivity|].
+    split; intros [|m]; cbn [tsem tbin]; auto.
+Qed.
+
+Theorem blanks_do_not_matter : forall debug describe facts (w0 w1 w0' w1' : blanks) (e e' : ParseChains.expr),
+  skel_expr e = skel_expr e' ->
+  lexable (wst w0 ++ toks_expr e ++ wst w1) -> lexable (wst w0' ++ toks_expr e' ++ wst w1') ->
+  exists r r', query debug describe facts (text_of (wst w0 ++ toks_expr e ++ wst w1)) = ([r], []) /\
+               query debug describe facts (text_of (wst w0' ++ toks_expr e' ++ wst w1')) = ([r'], []) /\
+               agrees r (denote (sem_expr e)) /\ agrees r' (denote (sem_expr e)).
+Proof.
+  intros debug describe facts w0 w1 w0' w1' e e' Hs Hl Hl'.
+  destruct (query_expression debug describe facts w0 e w1 Hl) as (r & Hq & Ha).
+  destruct (query_expression debug describe facts w0' e' w1' Hl') as (r' & Hq' & Ha').
+  exists r, r'. repeat split; try assumption.
+  rewrite <- (proj1 (proj2 skel_sem) e), Hs, (proj1 (proj2 skel_sem) e'). exact Ha'.
 Qed.
